@@ -20,6 +20,9 @@ if [ ! -d $d/repo ]; then
   git -C /repo worktree add --detach $d/repo HEAD >/dev/null
   # uncommitted hook edits of /repo (if any) travel along
   (cd /repo && git diff HEAD) | (cd $d/repo && git apply --allow-empty 2>/dev/null || true)
+  # a fresh checkout can leave veryl.par newer than the generated parser, which makes
+  # build.rs regenerate it with parol (20+ minutes): mark the generated files current
+  touch $d/repo/crates/parser/src/generated/* $d/repo/crates/migrator/src/generated/*
 fi
 rm -rf $d/harness
 mkdir -p $d/harness
